@@ -300,122 +300,153 @@ func runRecord(path string, seed int64, ntraces, steps int, sum *tl.Summary) {
 		}
 		pending := map[int]*discover.VerifReval{}
 		initDone := false
+		// a node that keeps failing findnode requests (drop threshold: maxFindnodeFailures, only in
+		// buckets holding at least bucketSize/4 entries): taken from a bucket near that boundary
+		var victim *nodeD
+		victimLeft := 0
+		pickVictim := func() {
+			buckets, _, _, _, _ := discover.VerifState(in.tab)
+			var notes []string
+			var cands []nodeD
+			for _, b := range buckets {
+				if n := len(b.Entries); n >= discover.VerifBucketSize/4-1 && n <= discover.VerifBucketSize/4+2 {
+					for _, e := range b.Entries {
+						cands = append(cands, w.proj(e.Node, &notes))
+					}
+				}
+			}
+			if len(cands) > 0 {
+				v := cands[r.Intn(len(cands))]
+				victim, victimLeft = &v, discover.VerifMaxFindnodeFailures+1+r.Intn(2)
+			}
+		}
 		shape := ""
 		for i := 0; i < steps; i++ {
 			var ev tl.M
-			switch c := r.Intn(100); {
-			case c < 2 || (!initDone && i > steps/8 && c < 20):
-				if initDone {
-					continue
-				}
-				discover.VerifSetInitDone(in.tab)
-				initDone = true
-				ev = tl.M{"op": "initdone"}
-			case c < 49:
-				n := announce()
-				inb := r.Intn(3) == 0
-				ok := discover.VerifHandleAddNode(in.tab, w.node(n), inb)
-				ev = tl.M{"op": "add", "n": n.tuple(), "inb": inb, "ok": ok}
-			case c < 53:
-				var id int
-				if ids := inTable(); len(ids) > 0 && r.Intn(4) != 0 {
-					id = ids[r.Intn(len(ids))]
-				} else {
-					id = pick().ID
-				}
-				discover.VerifDeleteNode(in.tab, w.node(nodeD{ID: id, Net: 1, Host: 1, Port: 1}))
-				ev = tl.M{"op": "delete", "id": id}
-			case c < 65:
-				ids := inTable()
-				if len(ids) == 0 {
-					continue
-				}
-				id := ids[r.Intn(len(ids))]
-				if pending[id] != nil {
-					continue
-				}
-				h := discover.VerifStartReval(in.tab, w.realID(id))
-				if h == nil {
-					tl.Fatal("entry vanished")
-				}
-				pending[id] = h
-				ev = tl.M{"op": "start", "id": id}
-			case c < 85:
-				if len(pending) == 0 {
-					continue
-				}
-				ids := make([]int, 0, len(pending))
-				for id := range pending {
-					ids = append(ids, id)
-				}
-				sort.Ints(ids)
-				id := ids[r.Intn(len(ids))]
-				ok := r.Intn(5) < 3
-				nr := []any{}
-				var rec *enode.Node
-				if r.Intn(3) == 0 {
-					var cur *nodeD
-					for k := range pool {
-						if pool[k].ID == id {
-							cur = &pool[k]
+			if victimLeft == 0 && r.Intn(40) == 0 {
+				pickVictim()
+			}
+			if victimLeft > 0 && r.Intn(3) != 0 {
+				victimLeft--
+				real := w.node(*victim)
+				discover.VerifTrackRequest(in.tab, real, false, nil)
+				ev = tl.M{"op": "track", "n": victim.tuple(), "succ": false, "found": []any{}, "f": in.db.FindFails(real.ID(), real.IPAddr())}
+				sum.Count("track:victim")
+			} else {
+				switch c := r.Intn(100); {
+				case c < 2 || (!initDone && i > steps/8 && c < 20):
+					if initDone {
+						continue
+					}
+					discover.VerifSetInitDone(in.tab)
+					initDone = true
+					ev = tl.M{"op": "initdone"}
+				case c < 49:
+					n := announce()
+					inb := r.Intn(3) == 0
+					ok := discover.VerifHandleAddNode(in.tab, w.node(n), inb)
+					ev = tl.M{"op": "add", "n": n.tuple(), "inb": inb, "ok": ok}
+				case c < 53:
+					var id int
+					if ids := inTable(); len(ids) > 0 && r.Intn(4) != 0 {
+						id = ids[r.Intn(len(ids))]
+					} else {
+						id = pick().ID
+					}
+					discover.VerifDeleteNode(in.tab, w.node(nodeD{ID: id, Net: 1, Host: 1, Port: 1}))
+					ev = tl.M{"op": "delete", "id": id}
+				case c < 65:
+					ids := inTable()
+					if len(ids) == 0 {
+						continue
+					}
+					id := ids[r.Intn(len(ids))]
+					if pending[id] != nil {
+						continue
+					}
+					h := discover.VerifStartReval(in.tab, w.realID(id))
+					if h == nil {
+						tl.Fatal("entry vanished")
+					}
+					pending[id] = h
+					ev = tl.M{"op": "start", "id": id}
+				case c < 85:
+					if len(pending) == 0 {
+						continue
+					}
+					ids := make([]int, 0, len(pending))
+					for id := range pending {
+						ids = append(ids, id)
+					}
+					sort.Ints(ids)
+					id := ids[r.Intn(len(ids))]
+					ok := r.Intn(5) < 3
+					nr := []any{}
+					var rec *enode.Node
+					if r.Intn(3) == 0 {
+						var cur *nodeD
+						for k := range pool {
+							if pool[k].ID == id {
+								cur = &pool[k]
+							}
+						}
+						if cur != nil {
+							d := *cur
+							d.Seq += r.Intn(3)
+							switch r.Intn(3) {
+							case 0:
+								randAddr(&d)
+							case 1:
+								d.Port = 30000 + r.Intn(3)
+							}
+							if r.Intn(2) == 0 {
+								*cur = d
+							}
+							rec = w.node(d)
+							nr = []any{d.tuple()}
 						}
 					}
-					if cur != nil {
-						d := *cur
-						d.Seq += r.Intn(3)
-						switch r.Intn(3) {
-						case 0:
-							randAddr(&d)
-						case 1:
-							d.Port = 30000 + r.Intn(3)
-						}
-						if r.Intn(2) == 0 {
-							*cur = d
-						}
-						rec = w.node(d)
-						nr = []any{d.tuple()}
-					}
-				}
-				discover.VerifRevalResponse(in.tab, pending[id], ok, rec)
-				delete(pending, id)
-				ev = tl.M{"op": "resp", "id": id, "ok": ok, "nr": nr}
-			case c < 93:
-				n := announce()
-				if ids := inTable(); len(ids) > 0 && r.Intn(3) != 0 { // mostly about table nodes
-					want := ids[r.Intn(len(ids))]
-					for k := range pool {
-						if pool[k].ID == want {
-							n = pool[k]
+					discover.VerifRevalResponse(in.tab, pending[id], ok, rec)
+					delete(pending, id)
+					ev = tl.M{"op": "resp", "id": id, "ok": ok, "nr": nr}
+				case c < 93:
+					n := announce()
+					if ids := inTable(); len(ids) > 0 && r.Intn(3) != 0 { // mostly about table nodes
+						want := ids[r.Intn(len(ids))]
+						for k := range pool {
+							if pool[k].ID == want {
+								n = pool[k]
+							}
 						}
 					}
+					succ := r.Intn(4) == 0
+					found := []any{}
+					var fn []*enode.Node
+					for k := r.Intn(5); k > 0; k-- {
+						f := announce()
+						found = append(found, f.tuple())
+						fn = append(fn, w.node(f))
+					}
+					real := w.node(n)
+					discover.VerifTrackRequest(in.tab, real, succ, fn)
+					ev = tl.M{"op": "track", "n": n.tuple(), "succ": succ, "found": found, "f": in.db.FindFails(real.ID(), real.IPAddr())}
+				default:
+					var target enode.ID
+					r.Read(target[:])
+					if r.Intn(3) == 0 {
+						target = w.realID(pick().ID)
+					}
+					k := 1 + r.Intn(20)
+					pl := r.Intn(2) == 0
+					res := []int{}
+					var notes []string
+					for _, n := range discover.VerifFindnodeByID(in.tab, target, k, pl) {
+						res = append(res, w.proj(n, &notes).ID)
+					}
+					ev = tl.M{"op": "find", "t": w.compress(func() enode.ID { // model target: bits of target^self
+						return target
+					}()), "k": k, "pl": pl, "res": res}
 				}
-				succ := r.Intn(4) == 0
-				found := []any{}
-				var fn []*enode.Node
-				for k := r.Intn(5); k > 0; k-- {
-					f := announce()
-					found = append(found, f.tuple())
-					fn = append(fn, w.node(f))
-				}
-				real := w.node(n)
-				discover.VerifTrackRequest(in.tab, real, succ, fn)
-				ev = tl.M{"op": "track", "n": n.tuple(), "succ": succ, "found": found, "f": in.db.FindFails(real.ID(), real.IPAddr())}
-			default:
-				var target enode.ID
-				r.Read(target[:])
-				if r.Intn(3) == 0 {
-					target = w.realID(pick().ID)
-				}
-				k := 1 + r.Intn(20)
-				pl := r.Intn(2) == 0
-				res := []int{}
-				var notes []string
-				for _, n := range discover.VerifFindnodeByID(in.tab, target, k, pl) {
-					res = append(res, w.proj(n, &notes).ID)
-				}
-				ev = tl.M{"op": "find", "t": w.compress(func() enode.ID { // model target: bits of target^self
-					return target
-				}()), "k": k, "pl": pl, "res": res}
 			}
 			st, notes := in.state()
 			for _, b := range st["ent"].([]any) {
